@@ -349,7 +349,7 @@ fn judge(c: &Case, cls: &mut Classifier) -> Verdict {
             return fail("Err", format!("accepted, message hash {}", hex_lower(&mh)), format!("non-conforming document accepted: {} at depth {} ({}, type {}): {docs}", c.mutation, c.depth, c.detail, c.ty));
         }
         (None, Err(_)) => {}
-        (Some(m), Err(e)) => return fail("accepted", format!("Err({e})"), format!("conforming control refused: {} ({}, type {}): {docs}", c.mutation, c.detail, c.ty)),
+        (Some(_), Err(e)) => return fail("accepted", format!("Err({e})"), format!("conforming control refused: {} ({}, type {}): {docs}", c.mutation, c.detail, c.ty)),
         (Some(m), Ok((ds, mh, dg))) => {
             let Some((wds, wmh, wdg)) = td::expected(m) else {
                 return fail("conforming model", "reference refuses it", "harness: control model does not conform");
